@@ -778,7 +778,3 @@ func (hr *histReplay) handle(t *Tracer, name string, e map[string]interface{}) b
 	return false
 }
 
-// legacy layouts are added by the legacy family
-func legacyPoolStream(sid int, c *TrieCase, layout string) *poolStream {
-	panic("legacy layout " + layout + " not available in this build")
-}
